@@ -528,3 +528,105 @@ pub fn adss_sizes(a: &Args) -> Report {
 
 #[allow(dead_code)]
 fn _unused(_: Value) {}
+
+// ---------------------------------------------------------------------------
+/// `vh secret-scan --seed S --n N` (C02): no encoded report contains the measurement, a
+/// derivation value or a key in the clear.  Secrets are obtained through the public API.
+pub fn secret_scan(a: &Args) -> Report {
+  use num_bigint::BigUint;
+  let mut rep = Report::new("secret-scan");
+  let seed = a.u64("seed", 1);
+  let n = a.u64("n", 40);
+  let mut rng = rng_from(seed, 5150);
+  let oprf = OprfServer::new(vec![0, 1, 2, 3]).expect("oprf");
+  let p: BigUint = (BigUint::from(1u8) << 128usize) + BigUint::from(12451u32);
+  for i in 0..n {
+    let t: u32 = rng.gen_range(2..6);
+    let lm = [8usize, 9, 16, 24, 32, 33, 166, 300][rng.gen_range(0..8)];
+    let m = rand_bytes(&mut rng, lm);
+    let mut m = m;
+    m[0] = i as u8;
+    m[1] = 0x5a;
+    let e = vec![rng.gen_range(0..4u8)];
+    let src = if i % 4 == 3 { "oprf" } else { "local" };
+    let mut cl: Vec<RealClient> = Vec::new();
+    for _ in 0..t {
+      let la = [8usize, 16, 40, 170][rng.gen_range(0..4)];
+      let mut aux = rand_bytes(&mut rng, la);
+      aux[0] = 0xa5;
+      aux[1] = rng.gen();
+      aux[2] = rng.gen();
+      aux[3] = rng.gen();
+      if let Some(c) = make_client(ClientCfg { m: m.clone(), e: e.clone(), t, aux: Some(aux), src: src.into() }, &oprf, &mut rep) {
+        cl.push(c);
+      }
+    }
+    if cl.len() < t as usize {
+      continue;
+    }
+    let shares: Vec<Share> = cl.iter().filter_map(|c| Share::from_bytes(&c.share_bytes)).collect();
+    let r0 = match guard(|| share_recover(&shares).map(|c| c.get_message()).map_err(|e| e.to_string())) {
+      Guard::Done(Ok(m)) => m,
+      _ => continue,
+    };
+    let mut key = vec![0u8; 16];
+    derive_ske_key(&r0, &e, &mut key);
+    // sharing key: constant term of the polynomial through the t inner shares
+    let pts: Vec<(BigUint, BigUint)> = cl.iter().map(|c| {
+      let l = layout(&c.share_bytes).unwrap();
+      let s = &c.share_bytes[l.s.0..l.s.1];
+      (BigUint::from_bytes_le(&s[..24]), BigUint::from_bytes_le(&s[24..48.min(s.len())]))
+    }).collect();
+    let mut k0 = BigUint::from(0u8);
+    for (i1, (xi, yi)) in pts.iter().enumerate() {
+      let mut num = BigUint::from(1u8);
+      let mut den = BigUint::from(1u8);
+      for (j, (xj, _)) in pts.iter().enumerate() {
+        if j != i1 {
+          num = num * xj % &p;
+          den = den * ((xj + &p - xi) % &p) % &p;
+        }
+      }
+      k0 = (k0 + yi * num % &p * den.modpow(&(&p - BigUint::from(2u8)), &p)) % &p;
+    }
+    let mut kbytes = k0.to_bytes_le();
+    kbytes.resize(24, 0);
+    let rnd = cl[0].rnd;
+    let mut r1 = [0u8; 32];
+    sta_rs::strobe_digest(&rnd, &[&[1u8]], "star_derive_randoms", &mut r1);
+    let mut r2 = [0u8; 32];
+    sta_rs::strobe_digest(&rnd, &[&[2u8]], "star_derive_randoms", &mut r2);
+    for c in &cl {
+      let bytes = &c.msg_bytes;
+      let mut secrets: Vec<(&str, Vec<u8>)> = vec![
+        ("measurement", m.clone()),
+        ("client-randomness", rnd.to_vec()),
+        ("r0 (shared message)", r0.clone()),
+        ("r1 (coins)", r1.to_vec()),
+        ("payload key", key.clone()),
+        ("sharing key", kbytes[..16].to_vec()),
+      ];
+      if let Some(a) = &c.cfg.aux {
+        secrets.push(("associated-data", a.clone()));
+      }
+      for (name, s) in secrets {
+        rep.evaluations += 1;
+        if let Some(off) = contains(bytes, &s) {
+          rep.violation("C02", "Message::to_bytes", &format!("secret-in-clear:{name}"),
+            format!("the encoded report contains the {name} at offset {off}"), json!({"case": i, "t": t, "source": src, "offset": off}));
+        }
+      }
+      // positive control: the tag (public) is r2 and must be found, or the scan is vacuous
+      if contains(bytes, &r2).is_some() {
+        rep.count("positive_control_tag_found", 1);
+      }
+      rep.nontrivial(format!("scan:{i}:{}", hex(&c.share_bytes[8..16])));
+    }
+    if rep.samples.len() < 3 {
+      rep.sample(json!({"case": i, "threshold": t, "measurement_len": lm, "source": src, "report_len": cl[0].msg_bytes.len(),
+        "secrets_scanned": ["measurement","client-randomness","r0","r1","payload key","sharing key","associated-data"]}));
+    }
+  }
+  rep.traces = 1;
+  rep
+}
